@@ -30,6 +30,8 @@ def run(tier, seed):
             a = rng.randrange(n)
             r["edit_between"].append([(a, min(n, a + rng.randint(1, 6)), rng.choice([1, -1])) for _ in range(rng.randint(1, 2))])
         recipes.append(r)
+    # features that cite references of their records (the /citation qualifier is a qualifier like any other)
+    recipes += ac.real_family_cases(rng, 2 if q else 6, 3, annotate=True, refs=True)
     traces = ac.validate(run, "annotated-assemblies", recipes)
     if True:       # real registry plasmids with their own feature tables, inputs rotated by the implementation
         from . import registry_asm
